@@ -98,6 +98,8 @@ def run(opts):
                     continue
                 chk.evaluations += 1
                 chk.traces += 1
+                if ev.get("fragile"):
+                    chk.notes["fragile_set_aside"] = chk.notes.get("fragile_set_aside", 0) + 1
                 if ev["ok"]:
                     continue
                 case = byid[ev["id"]]
@@ -125,6 +127,9 @@ def run(opts):
     for h in hists[:1]:
         chk.sample({"history": [[[r[0], r[1], " ".join(r[2]) if r[0] == "DEFINE" else r[2:]] for r in s["recs"]] for s in h["steps"]]})
     chk.assumptions = ["values are small integers / exact rationals; agreement to 1e-9 relative",
+                       "a mismatch at an input point where the real evaluation is discontinuous (its results change under a "
+                       "2^-30 relative perturbation of the summary inputs) is a rounding artefact of double arithmetic against "
+                       "exact rationals (tie, exact cancellation) and is set aside, counted as fragile_set_aside",
                        "no chains of ^, of comparisons or of set-union operators (the property fixes no associativity); "
                        "no negative literals; SORTA/SORTD only on tie-free data; AVEG/AVEH/NORM2/EXP/LN/LOG/NINT/RAND* "
                        "are outside the exact-rational domain and not exercised",
